@@ -145,6 +145,23 @@ func judgeCommon(res *core.CaseResult, it item, r itemResult, timeFP string, mod
 		res.Inconclusive = "child process trouble: " + capStr(r.Err+" "+r.Stderr, 400)
 		return
 	}
+	if r.CPUms > cpuBoundMs && r.RSS1KB > memBombKB && strings.HasPrefix(r.Kind, "killed") {
+		// Above 512 MiB AND still running when the watchdog killed it: a nesting bomb stops at the deadline and needs a
+		// few seconds to unwind, a call that ignores the deadline (e.g. a loop inside a Go builtin) just carries on. Give it
+		// a second, much longer run: returning within that is the slow unwinding (not judged on time, see below); being
+		// still at it after the bound again - whatever ends it, the CPU or the memory watchdog - is a hang.
+		res.Count("over_bound_memory_heavy_calls_rerun", 1)
+		again := runItems([]item{it}, runOpt{KillCPUMs: 4 * killCPUMs}).Results[0]
+		if strings.HasPrefix(again.Kind, "killed") && again.CPUms > cpuBoundMs {
+			fp := timeFP
+			if fp == "" {
+				fp = "c16:time:" + it.Cat
+			}
+			res.Count("cpu_over_bound", 1)
+			res.Violate(fp, fmt.Sprintf("the call had not returned after %d ms CPU (killed) and, run again with four times the allowance, was still running after %d ms CPU (peak RSS %d MiB); the deadline in RunLuaScript is 1 s, bound used 10 s", r.CPUms, again.CPUms, again.RSS1KB/1024), detail())
+			return
+		}
+	}
 	if r.CPUms > cpuBoundMs && r.RSS1KB > memBombKB {
 		// the call drove the process above 512 MiB: a memory / nesting bomb, outside the claim (a controller with a usual
 		// memory limit would be OOM-killed, which the sandbox does not promise to prevent) - time not judged. This holds for
